@@ -3,18 +3,25 @@
 From MQ Require Import Base.Prelude Packet.Prim Packet.Props Generated.ObservedProps.
 
 (* the identifier list a cell stands for (Authentication Data comes with one Authentication Method) *)
-Definition cell_ids (id count : N) : list N :=
-  (if id =? 22 then [21] else []) ++ repeat id (N.to_nat count).
+(* locations >= 100 are the same location (loc mod 100) on a second base packet (other flags, a failure
+   reason code, several entries); 115 is AUTH with "Continue authentication", where the Authentication
+   Method is mandatory, so its cells carry one *)
+Definition base_loc (loc : N) : N := loc mod 100.
+Definition cell_ids (loc id count : N) : list N :=
+  (if (id =? 22) || ((loc =? 115) && negb (id =? 21)) then [21] else []) ++ repeat id (N.to_nat count).
 
 (* what the specification says about the cell *)
 Definition cell_expected (loc id count : N) : bool :=
-  placement_ok loc (cell_ids id count) && auth_dep_ok (cell_ids id count).
+  placement_ok (base_loc loc) (cell_ids loc id count) && auth_dep_ok (cell_ids loc id count)
+  && (if loc =? 115 then memn 21 (cell_ids loc id count) else true).
+
+Definition ALL_CELL_LOCS : list N := ALL_LOCS ++ map (fun l => l + 100) ALL_LOCS.
 
 Definition prop_cell_ok (c : N * N * N * bool * bool) : bool :=
   let '(loc, id, count, b, p) := c in Bool.eqb b (cell_expected loc id count) && Bool.eqb p (cell_expected loc id count).
 
 Definition props_domain : list (N * N * N) :=
-  flat_map (fun loc => flat_map (fun id => [(loc, id, 1); (loc, id, 2)]) ALL_PROP_IDS) ALL_LOCS.
+  flat_map (fun loc => flat_map (fun id => [(loc, id, 1); (loc, id, 2)]) ALL_PROP_IDS) ALL_CELL_LOCS.
 Definition prop_cell_key (c : N * N * N * bool * bool) : N * N * N := let '(l, i, n, _, _) := c in (l, i, n).
 Definition key3_eqb (a b : N * N * N) : bool :=
   let '(a1, a2, a3) := a in let '(b1, b2, b3) := b in (a1 =? b1) && (a2 =? b2) && (a3 =? b3).
